@@ -20,13 +20,14 @@ RULE = ('cases are histories (quick <=12, thorough <=40 operations, <=6 live app
         'application], embed application A in B, bind one Route object into several applications, request}; after every '
         'step every live application is compared with its model; a history is non-trivial when it contains an embedding or a '
         'failing add; distinct by hash of the operation list')
-ASSUMPTIONS = ['indices are interpreted as list.insert interprets them', 'patterns are leaves and probe paths canonical (no slash redirects)',
+ASSUMPTIONS = ['indices are interpreted as list.insert interprets them', 'patterns are leaves (no slash redirects: a non-canonical path is served directly unless the route is bound in the strict mode)',
                'every application uses its own middleware type (no cross-application uniqueness merging)']
 REQUIRED_REACH = ['one-middleware-class-several-instances', 'middleware-types-related-by-inheritance', 'application-options-compared', 'application-options-compared:defaults', 'app-resource-named-like-a-route-resource', 'op:construct', 'op:add-route', 'op:add-tuple', 'op:add-subapp', 'op:embed-existing', 'op:rebind-route',
                   'op:failing-add', 'fail:unresolved', 'fail:conflict', 'fail:bad-pattern', 'fail:bad-middleware',
                   'fail:kth-of-subapp', 'fail:kth-of-subapp:k>1', 'index:negative', 'index:overshooting', 'index:negative-multi',
                   'route-bound-into>=2-apps', 'embedded-app-used-directly-later', 'probes-compared', 'fingerprints-compared', 'app-with-render-factory',
-                  'embedded-route-with-render-arg', 'renderer-compared']
+                  'embedded-route-with-render-arg', 'renderer-compared', 'non-canonical-probe', 'add-without-inheriting-slashes',
+                  'embed-without-inheriting-slashes', 'prefix-outside-ascii']
 NSHARDS = 16
 PATTERNS = ['/a', '/a/<x>', '/<x>', '/b', '/a/b', '/c/<y>', '/<x>/<y>', '/d']
 BEHS = ['ok', 'ok', 'ok', 'raise_nb_404', 'return_nb_403', 'raise_403', 'uncaught']
@@ -46,7 +47,7 @@ class World(object):
     def new_spec(self):
         self.n += 1
         return {'rid': 'r%d' % self.n, 'pattern': self.rng.pick(PATTERNS), 'methods': self.rng.pick(METHOD_SETS),
-                'beh': self.rng.pick(BEHS), 'render_arg': self.rng.chance(0.3), 'route_res': self.rng.chance(0.3), 'with_render': self.rng.chance(0.3)}
+                'beh': self.rng.pick(BEHS), 'mode': self.rng.pick([None, None, 'strict', 'rewrite', 'redirect']), 'render_arg': self.rng.chance(0.3), 'route_res': self.rng.chance(0.3), 'with_render': self.rng.chance(0.3)}
 
     def stamp_mw(self, label):
         from clastic import Middleware
@@ -121,7 +122,7 @@ class World(object):
         app = Application(entries, resources=res, middlewares=mws,
                           render_factory=tables.make_factory(label) if factory else None, **opts)
         a = {'app': app, 'label': label, 'mode': opts.get('slash_mode', 'redirect'), 'debug': bool(opts.get('debug')), 'opts': sorted(opts), 'mws': [label] if has_mw else [], 'resources': sorted(res), 'factory': factory,
-             'table': [dict(s, mws=[label] if has_mw else [], render=self.bound_render(s, factory)) for s in specs],
+             'table': [dict(s, mode=opts.get('slash_mode', 'redirect'), mws=[label] if has_mw else [], render=self.bound_render(s, factory)) for s in specs],
              'embedded_in': 0, 'used_after_embed': False}
         if factory:
             self.sh.hit('app-with-render-factory')
@@ -171,6 +172,12 @@ class World(object):
             s['pattern'] = '/d'
         idx = self.pick_index(a)
         kw = {} if idx is None else {'index': idx}
+        mode = a.get('mode', 'redirect')
+        if form != 'tuple' and self.rng.chance(0.25):
+            # the route keeps the slash mode it was declared with (this add only: the next entry inherits again)
+            kw['inherit_slashes'] = False
+            mode = s.get('mode') or 'redirect'
+            self.sh.hit('add-without-inheriting-slashes')
         if form == 'tuple':
             ep = tables.make_endpoint(s['rid'], s['beh'], tables.bindings_of(s['pattern']))
             s['methods'] = None
@@ -183,8 +190,8 @@ class World(object):
             self.routes.append({'route': rt, 'spec': s, 'fp': self.route_fp(rt), 'bound': 1})
             a['app'].add(rt, **kw)
             self.sh.hit('op:add-route')
-        self.insert_block(a['table'], idx, [dict(s, mws=list(a['mws']), render=self.bound_render(s, a['factory']))])
-        self.ops.append(['add-' + form, a['label'], s['rid'], s['pattern'], idx])
+        self.insert_block(a['table'], idx, [dict(s, mode=mode, mws=list(a['mws']), render=self.bound_render(s, a['factory']))])
+        self.ops.append(['add-' + form, a['label'], s['rid'], s['pattern'], idx, kw.get('inherit_slashes', True)])
         self.touch(a)
 
     def op_rebind_route(self):
@@ -196,11 +203,16 @@ class World(object):
             return
         idx = self.pick_index(a)
         kw = {} if idx is None else {'index': idx}
+        mode = a.get('mode', 'redirect')
+        if self.rng.chance(0.25):
+            kw['inherit_slashes'] = False
+            mode = r['spec'].get('mode') or 'redirect'
+            self.sh.hit('add-without-inheriting-slashes')
         a['app'].add(r['route'], **kw)
         r['bound'] += 1
         if r['bound'] >= 2:
             self.sh.hit('route-bound-into>=2-apps')
-        self.insert_block(a['table'], idx, [dict(r['spec'], mws=list(a['mws']), render=self.bound_render(r['spec'], a['factory']))])
+        self.insert_block(a['table'], idx, [dict(r['spec'], mode=mode, mws=list(a['mws']), render=self.bound_render(r['spec'], a['factory']))])
         self.ops.append(['rebind-route', a['label'], r['spec']['rid'], idx])
         self.sh.hit('op:rebind-route')
         self.touch(a)
@@ -222,9 +234,21 @@ class World(object):
         # would the embedding conflict in the target?  (resource y vs binding <y>): that is the failing-add case
         conflict = 'y' in target['resources'] and any('y>' in e['pattern'] for e in inner['table'])
         prefix = self.rng.pick(['/e%d' % self.n, '/e%d/' % self.n, '/e%d/f' % self.n])
+        if self.rng.chance(0.15):
+            # prefixes outside ASCII: precomposed, decomposed (not NFC), compatibility characters, CJK
+            prefix = self.rng.pick(['/caf\u00e9%d', '/cafe\u0301%d', '/\u212bng%d/', '/\u65e5\u672c%d', '/\ufb01%d/f']) % self.n
+            self.sh.hit('prefix-outside-ascii')
         idx = self.pick_index(target, multi=len(inner['table']) > 1)
         kw = {} if idx is None else {'index': idx}
-        entry = (prefix, inner['app']) if self.rng.chance(0.5) else SubApplication(prefix, inner['app'])
+        inherit = True
+        if self.rng.chance(0.5):
+            entry = (prefix, inner['app'])
+        else:
+            # an embedding may opt out of the target's slash mode: the embedded routes keep theirs - this embedding only
+            inherit = self.rng.chance(0.6)
+            entry = SubApplication(prefix, inner['app']) if inherit and self.rng.chance(0.5) else SubApplication(prefix, inner['app'], inherit_slashes=inherit)
+            if not inherit:
+                self.sh.hit('embed-without-inheriting-slashes')
         before = self.snapshot()
         if conflict:
             k = [i for i, e in enumerate(inner['table']) if 'y>' in e['pattern']][0] + 1
@@ -237,7 +261,7 @@ class World(object):
         target['app'].add(entry, **kw)
         # renderers are not re-bound by default: an embedded route keeps the factory it was bound with, unless it
         # had none - then the embedding application's factory fills in
-        block = [dict(e, pattern=prefix.rstrip('/') + e['pattern'],
+        block = [dict(e, pattern=prefix.rstrip('/') + e['pattern'], mode=(target.get('mode', 'redirect') if inherit else e.get('mode', 'redirect')),
                       mws=list(target['mws']) + [m for m in e['mws'] if self.mw_type.get(m, m) not in [self.mw_type.get(t, t) for t in target['mws']]],
                       render=(target['factory'] if (e.get('render') == 'noop' and target['factory']) else e.get('render')))
                  for e in inner['table']]
@@ -376,10 +400,15 @@ class World(object):
         pats = [e['pattern'] for e in a['table']]
         self.rng.shuffle(pats)
         for p in pats[:3]:
-            elements, _ = um.parse(p)
+            elements, _ = um.parse(p, liberal_literals=True)
             path = ''.join('/' + (e[1] if e[0] == 'lit' else 'v') for e in elements) or '/'
             # also methods that no route admits (405: the dispatcher collects the methods of every matching route) and HEAD
             out.append((self.rng.pick(['GET', 'GET', 'POST', 'DELETE', 'PUT', 'HEAD']), path))
+            if path != '/' and self.rng.chance(0.5):
+                # a non-canonical spelling: served by a route bound in the redirect or rewrite mode (the patterns are
+                # leaves: nothing to redirect to), no match for one bound in the strict mode
+                out.append((out[-1][0], self.rng.pick([path + '/', path + '//', ('/' + path[1:].replace('/', '//', 1)) if '/' in path[1:] else path + '/'])))
+                self.sh.hit('non-canonical-probe')
         out.append(('GET', self.rng.pick(['/a', '/a/b', '/zzz/q/r', '/b'])))
         return out
 
